@@ -289,6 +289,7 @@ func runProperty(spec *PropSpec, tier string, overlay map[string][]byte) *runRes
 		return r
 	}
 	c := newCtx(spec.ID, tier, p)
+	defer dropThreadInfos(p.SSA)
 	func() {
 		defer func() {
 			if x := recover(); x != nil {
